@@ -77,10 +77,14 @@ pub fn record(seed: u64, tier: &str, out: &str) {
                 _ => 2 + rng.below(n as u64 - 1) as i32,
             });
         }
-        let rows: Vec<Value> = picks.iter().map(|&x| json!([x, s.min_prime(x), s.is_prime(x), if x >= 1 { fact(&s, x) } else { json!([]) }])).collect();
-        entries += rows.len() as u64;
-        for ch in rows.chunks(500) {
-            t.ev(json!({"ev": "bigsample", "N": n, "rows": ch}));
+        for ch in picks.chunks(500) {
+            match catch(|| ch.iter().map(|&x| json!([x, s.min_prime(x), s.is_prime(x), if x >= 1 { fact(&s, x) } else { json!([]) }])).collect::<Vec<Value>>()) {
+                Ok(rows) => {
+                    entries += rows.len() as u64;
+                    t.ev(json!({"ev": "bigsample", "N": n, "rows": rows}));
+                }
+                Err(p) => t.ev(json!({"ev": "bigsample", "N": n, "panic": p})),
+            }
         }
         let pairs: Vec<Value> = (0..if thorough { 1500 } else { 500 })
             .map(|k| {
